@@ -55,6 +55,7 @@ class P(b1.Plugin):
                 if req["method"] is not None:
                     f.metas = ["Clone(%s)" % gen.spell_path_param(rng, "method", "clone_m_%s" % f.ty)]
         noise = [] if copy else [t for t in ("Debug", "PartialEq") if rng.random() < 0.3]
+        td.type_spelling = True
         gen.finalize_attrs(rng, td, noise)
         td.extra_items = [fp_fn(td)]
         return td
